@@ -164,7 +164,8 @@ def rebuildRing (r : Ring) (start first last : Nat) : Option Ring :=
   | none => none
   | some (r', ev) => if ev ≠ last then none else some r'
 
-/-- `ring_check`: `false` = die("ring not sorted") -/
+/-- `ring_check`: `false` = err("ring not sorted") and `return -1` (an abort before `fix: report an
+    unsorted ring as an error`) -/
 def ringCheckLoop (buf : List Ev) (r : Ring) : Nat → Nat → Nat → Bool
   | 0, _, _ => true
   | fuel + 1, i, lastClock =>
@@ -178,9 +179,9 @@ def ringCheck (buf : List Ev) (r : Ring) (start : Nat) : Bool :=
   ringCheckLoop buf r (r.size + 1) start 0
 
 /-- Outcome of the tool on one stream.  `ok` = exit 0; `errNoDest`,
-    `errStream` = error message and exit 1; the `die*` = abort(). -/
+    `errStream`, `errRingNotSorted` = error message and exit 1; the `die*` = abort(). -/
 inductive Status where
-  | ok | errNoDest | errStream | dieHead | dieTail | dieBufsize | dieRebuild | dieRingNotSorted
+  | ok | errNoDest | errStream | dieHead | dieTail | dieBufsize | dieRebuild | errRingNotSorted
   deriving DecidableEq, Repr
 
 /-- `int64_t` cast of a uint64 clock (cmp_ev) -/
@@ -215,7 +216,7 @@ def sortRegion (sortFn : List Ev → List Ev) (buf : List Ev) (r : Ring) (bad0 :
       | none => (Status.dieRebuild, buf', r, some (first, next))
       | some r' =>
         if ringCheck buf' r' i0 then (Status.ok, buf', r', some (first, next))
-        else (Status.dieRingNotSorted, buf', r', some (first, next))
+        else (Status.errRingNotSorted, buf', r', some (first, next))
 
 /-- The loop of `region_in_place`: `false` as soon as a clock is lower than the
     previous one. -/
